@@ -92,7 +92,8 @@ void Exec::op_solve(Client &c) {
 		nontrivial("C03");
 		std::string cls = faulted ? "ladder-recovery" : "plain";
 		if (so.rv != 0 || !definitive(so.status)) { const RefResult &t = truth(o->m); std::string tn = (t.status && t.err.empty()) ? status_name(t.status) : "unknown";
-			violate("C03", cls + ":non-definitive:" + status_name(so.status) + strf(":rv%d", so.rv != 0) + ":truth-" + tn + ":stages-" + stageset, strf("exact solver with default limits returned rv=%d status %s %s; the reference solver finds the LP %s", so.rv, status_name(so.status).c_str(), ladder.c_str(), tn.c_str())); }
+			if (tn == "unknown") probe("c03.nondefinitive_without_reference");   // C03 quantifies over LPs the reference solver classifies (up to 10x10)
+			else violate("C03", cls + ":non-definitive:" + status_name(so.status) + strf(":rv%d", so.rv != 0) + ":truth-" + tn + ":stages-" + stageset, strf("exact solver with default limits returned rv=%d status %s %s; the reference solver finds the LP %s", so.rv, status_name(so.status).c_str(), ladder.c_str(), tn.c_str())); }
 	}
 	// truth on small LPs (C03 for the exact driver under default limits, C04 for every other way of driving)
 	if (so.rv == 0 && definitive(so.status) && o->m.well_formed()) {
@@ -150,7 +151,12 @@ void Exec::judge_solve(Obj &o, const SolveOut &so, const std::string &how, bool 
 				QArr v(1); Q val; bool hv = !mpq_QSget_objval(o.p, v.p()); if (hv) val = lib_to_q(v.at(0));
 				if (!e.primal_feasible || !e.dual_feasible) violate("C12", std::string("basis-not-optimal:") + (e.primal_feasible ? "" : "P") + (e.dual_feasible ? "" : "D") + ":" + ctx, "basis handed back with OPTIMAL is not an optimal basis: " + b.cstat + "|" + b.rstat);
 				else if (hv && e.pobj != val) violate("C12", "basis-value:" + ctx, "basic solution value " + qstr(e.pobj) + " != reported " + qstr(val));
-				else { nontrivial("C12"); if (so.have_x) { std::vector<Q> xs(so.x.begin(), so.x.begin() + n); if (xs != e.x) probe("c12.x_differs_from_basic_solution"); } }
+				else { nontrivial("C12");
+					// "its exact basic solution is the reported optimal solution": the x handed out (out-parameter of the exact driver, accessor otherwise)
+					std::vector<Q> xs; if (so.have_x) xs.assign(so.x.begin(), so.x.begin() + n); else { QArr xa(n ? n : 1); if (!mpq_QSget_x_array(o.p, xa.p())) { xs.resize(n); for (int j = 0; j < n; j++) xs[j] = lib_to_q(xa.at(j)); } }
+					bool lied = false; for (auto &st : world.stages) if (!st.faults.empty()) lied = true;   // vectors a float stage was made to lie about do not belong to its basis
+					if (lied) probe("c12.skipped_basis_solution_after_float_fault");
+					else if ((int)xs.size() == n && xs != e.x) violate("C12", "basis-solution:" + ctx, "the reported x is not the basic solution of the basis handed back with it (" + b.cstat + "|" + b.rstat + ")"); }
 			} else probe("c12.singular_basis_returned");
 		}
 	} else if (so.status == QS_LP_INFEASIBLE) {
@@ -259,6 +265,9 @@ void Exec::op_verdict(Client &c) {
 	if (!from_store) b = make_basis_pattern(o->m, op->i("pat"));
 	BasisEval e = eval_basis(o->m, b.cstat, b.rstat);
 	if (!e.counts_ok) { T("  skip (invalid counts)"); return; }
+	// a stored basis may predate a bound edit and name a bound its column no longer has: not a valid basis of this problem
+	for (int j = 0; j < n; j++) { const MCol &mc = o->m.cols[j]; char st = b.cstat[j]; if ((st == '3' && (mc.lo.fin() || mc.up.fin())) || (st == '2' && !mc.up.fin()) || (st == '0' && !mc.lo.fin())) { T("  skip (status names a bound the column does not have)"); probe("c12.skipped_status_without_bound"); return; } }
+	for (int i = 0; i < m; i++) if (b.rstat[i] == '2' && o->m.rows[i].sense != 'R') { T("  skip (row at upper that is not ranged)"); return; }
 	std::string which = op->s("which", "optimal");
 	snapshot_others(o);
 	QSbasis *B = to_lib_basis(b); char result = 9; QArr dv(1); int rv = 0; int msg = 100000;
